@@ -1,6 +1,76 @@
-(* Properties_C14.v -- filled from EngineRead / EngineSteps when they land. *)
-From LCDB Require Import Base Engine EngineSpec EngineRead.
+(* Properties_C14.v -- theorems for property C14 (the reported layout is well formed).
+   Statements only; the proofs are in EngineSteps.v, EngineStepsInv.v and EngineTop.v. *)
+From LCDB Require Import Base Engine EngineSpec EngineRead EngineSteps EngineTop.
+From Coq Require Import Sorting.Sorted.
+Local Open Scope N_scope.
+
 Theorem C14_get_is_newest_visible : forall ucmp, total_order ucmp -> forall s k q,
   inv_b ucmp s = true -> get ucmp s k q = result_of (best ucmp (all_entries s) k q).
 Proof. exact get_correct. Qed.
 Print Assumptions C14_get_is_newest_visible.
+
+(* the executable invariant holds in every reachable state *)
+Theorem C14_inv_reachable : forall ucmp, total_order ucmp -> forall ops s,
+  run ucmp init_state ops = Some s -> inv_b ucmp s = true.
+Proof. exact inv_reachable. Qed.
+Print Assumptions C14_inv_reachable.
+
+Theorem C14_step_preserves_inv : forall ucmp, total_order ucmp -> forall s o s',
+  inv_b ucmp s = true -> step ucmp s o = Some s' -> inv_b ucmp s' = true.
+Proof. exact step_preserves_inv. Qed.
+Print Assumptions C14_step_preserves_inv.
+
+(* what the invariant says about the layout *)
+Theorem C14_layout_wellformed : forall ucmp, total_order ucmp -> forall s,
+  inv_b ucmp s = true ->
+  (* seven levels; memtables and files strictly sorted by internal key, files non-empty *)
+  length (levels s) = 7%nat /\
+  StronglySorted (fun a b => ilt ucmp a b = true) (mem s) /\
+  StronglySorted (fun a b => ilt ucmp a b = true) (imm_run s) /\
+  (forall i f, In f (level_files (levels s) i) ->
+     fents f <> [] /\ StronglySorted (fun a b => ilt ucmp a b = true) (fents f)) /\
+  (* levels >= 1: files sorted and pairwise disjoint *)
+  (forall i, (1 <= i)%nat ->
+     StronglySorted (fun f g => forall x y, In x (fents f) -> In y (fents g) -> ilt ucmp x y = true)
+                    (level_files (levels s) i)) /\
+  (* recency: for one user key, shallower places / newer level-0 files hold newer entries *)
+  (forall o m, ueq ucmp (ek o) (ek m) = true -> In o (mem s) -> In m (imm_run s) -> es m < es o) /\
+  (forall o m i f, ueq ucmp (ek o) (ek m) = true -> In o (mem s) \/ In o (imm_run s) ->
+     In f (level_files (levels s) i) -> In m (fents f) -> es m < es o) /\
+  (forall o m f g, ueq ucmp (ek o) (ek m) = true ->
+     In f (level_files (levels s) 0) -> In g (level_files (levels s) 0) -> fnum g < fnum f ->
+     In o (fents f) -> In m (fents g) -> es m < es o) /\
+  (forall o m i j f g, ueq ucmp (ek o) (ek m) = true -> (i < j)%nat ->
+     In f (level_files (levels s) i) -> In g (level_files (levels s) j) ->
+     In o (fents f) -> In m (fents g) -> es m < es o) /\
+  (* sequences, file numbers, snapshots *)
+  (forall e, In e (all_entries s) -> es e <= last_seq s) /\
+  (forall f, In f (concat (levels s)) -> fnum f < next_file s) /\
+  NoDup (map fnum (concat (levels s))) /\
+  (forall q, In q (snaps s) -> q <= last_seq s) /\ sorted_le (snaps s) = true.
+Proof. exact layout_wellformed. Qed.
+Print Assumptions C14_layout_wellformed.
+
+(* closing and reopening without turning replayed log entries into tables (the write
+   buffer was empty, or the log is reused) reproduces the same layout *)
+Theorem C14_reopen_same_layout : forall ucmp s nf s',
+  do_reopen ucmp s [] [] nf = Some s' ->
+  levels s' = levels s /\ imm s' = None /\ last_seq s' = last_seq s /\
+  (mem s = [] -> imm s = None -> mem s' = []).
+Proof. exact reopen_same_layout. Qed.
+Print Assumptions C14_reopen_same_layout.
+
+(* such a reopen is possible with any counter above the live table numbers *)
+Theorem C14_reopen_same_layout_exists : forall ucmp s nf,
+  (forall f, In f (concat (levels s)) -> fnum f < nf) ->
+  exists s', do_reopen ucmp s [] [] nf = Some s' /\ levels s' = levels s.
+Proof. exact reopen_same_layout_exists. Qed.
+Print Assumptions C14_reopen_same_layout_exists.
+
+(* non-vacuity: the final state of the run of EngineTop.Example *)
+Theorem C14_example :
+  run bytes_compare init_state Example.all_ops = Some Example.s3 /\
+  inv_b bytes_compare Example.s3 = true /\
+  map (map fnum) (levels Example.s3) = [[5]; [4]; [2]; []; []; []; []].
+Proof. split. exact Example.run_all. split. exact Example.c14_instance. reflexivity. Qed.
+Print Assumptions C14_example.
